@@ -1739,6 +1739,26 @@ pub mod verif_hooks {
     ) -> Vec<RangeInclusive<u64>> {
         chunk_range(range, chunk_size).collect()
     }
+
+    /// runs the private sync server loop on one request batch
+    pub async fn run_process_sync(
+        pool: SplitPool,
+        bookie: Bookie,
+        sender: Sender<SyncMessage>,
+        recv: mpsc::Receiver<SyncRequestV1>,
+    ) -> eyre::Result<()> {
+        process_sync(pool, bookie, sender, recv).await
+    }
+
+    /// one need against a connection, bypassing process_sync's filter
+    pub fn run_handle_need(
+        conn: &mut Connection,
+        actor_id: ActorId,
+        need: SyncNeedV1,
+        sender: &Sender<SyncMessage>,
+    ) -> eyre::Result<()> {
+        handle_need(conn, actor_id, need, sender)
+    }
 }
 
 #[cfg(test)]
